@@ -259,7 +259,9 @@ func (c *LocalReusableWorkflowCache) FindMetadata(spec string) (*ReusableWorkflo
 		if m, ok := c.writeCacheIfAbsent(spec, nil); !ok { // Remember the workflow file was not found
 			return m, nil // Another goroutine already found (and reported) it
 		}
-		return nil, fmt.Errorf("could not read reusable workflow file for %q: %w", spec, err)
+		// The error from OS echoes the file path as it is. It may contain line breaks
+		msg := strings.NewReplacer("\n", " ", "\r", " ", "\u2028", " ", "\u2029", " ").Replace(err.Error())
+		return nil, fmt.Errorf("could not read reusable workflow file for %q: %s", spec, msg)
 	}
 
 	m, err := parseReusableWorkflowMetadata(src)
